@@ -165,6 +165,7 @@ pub struct Harness<'p> {
     quiescent: bool,
     /// C13: do not treat the injected panic as a C04 failure
     pub tolerate_injected: bool,
+    node_handlers: u32,
 }
 
 pub const EXPECTED_PANICS: [&str; 2] = ["node with too large height", "harness bug"];
@@ -196,6 +197,7 @@ impl<'p> Harness<'p> {
             audit: None,
             quiescent: false,
             tolerate_injected: false,
+            node_handlers: 0,
         }
     }
 
@@ -508,6 +510,37 @@ impl<'p> Harness<'p> {
         }
         let evs = take_log();
         self.model.absorb_creation(&evs, None);
+    }
+
+    /// decoder v2: a node-level handler (Incr::on_update). It perturbs the handler bookkeeping that
+    /// subscriptions share (handler counts, the handle-after-stabilisation queue); its own calls
+    /// are logged, and may be the target of an injected fault, but carry no expectation.
+    pub fn act_on_update(&mut self, ni: usize) {
+        if self.ended {
+            return;
+        }
+        let Some(incr) = self.nodes[ni].incr.clone() else { return };
+        let tag = self.nodes[ni].tag;
+        let hid = self.node_handlers;
+        self.node_handlers += 1;
+        let can = build::canary();
+        self.trace.push(format!("#{tag}.on_update(h{hid})"));
+        let r = guarded(|| {
+            incr.on_update(move |u: incremental::NodeUpdate<&Val>| {
+                let _c = &can;
+                let (kind, value) = match u {
+                    incremental::NodeUpdate::Necessary(v) => (0, Some(v.clone())),
+                    incremental::NodeUpdate::Changed(v) => (1, Some(v.clone())),
+                    incremental::NodeUpdate::Invalidated => (2, None),
+                    incremental::NodeUpdate::Unnecessary => (3, None),
+                };
+                log(Event::NodeNotify { tag, handler: hid, kind, value });
+                tick(Role::Handler);
+            })
+        });
+        if let Err(m) = r {
+            self.on_panic("on_update", m);
+        }
     }
 
     pub fn act_drop_node_handle(&mut self, ni: usize) {
@@ -1366,6 +1399,7 @@ impl<'p> Harness<'p> {
             if p.subscriptions && !live_obs.is_empty() { 6 } else { 0 },                 // 12 subscribe
             if p.subscriptions && !active_subs.is_empty() { 2 } else { 0 },              // 13 unsubscribe
             if p.subscriptions && !active_subs.is_empty() { 1 } else { 0 },              // 14 state unsubscribe
+            if p.subscriptions && !ln.is_empty() && crate::choice::dv() >= 2 { 2 } else { 0 }, // 15 node-level on_update handler
         ];
         let a = ch.weighted(&w);
         self.classes.actions += 1;
@@ -1449,6 +1483,11 @@ impl<'p> Harness<'p> {
                 // mostly through the owning observer, sometimes through a foreign one (must be rejected)
                 let via = if ch.flag(1, 4) && live_obs.len() > 1 { live_obs[ch.choose(live_obs.len())] } else { own };
                 self.act_unsubscribe(si, via);
+            }
+            15 => {
+                label = "on_update";
+                let ni = ln[ch.choose(ln.len())];
+                self.act_on_update(ni);
             }
             _ => {
                 label = "state.unsubscribe";
